@@ -41,9 +41,25 @@ def build(params):
     if params['i'] % 4 == 3:
         sc = scen.corpus_scenario(r, idx=params['i'] // 4)
     else:
-        sc = scen.generated_scenario(s, onerror=False, onerror_mode=None, plant=r.random() < 0.2)
+        force = {}
+        if r.random() < 0.4:
+            # call-heavy programs: nested and recursive calls to step/next over
+            force = {'procs': True, 'recursion': True, 'size': r.choice((10, 16, 24))}
+        sc = scen.generated_scenario(s, onerror=False, onerror_mode=None,
+                                     plant=r.random() < 0.2, **force)
     nlines = sc['text'].count('\n') + 1
-    histories = [gen_history(stream(H(s, 'operator', j), 'ops'), nlines) for j in range(5)]
+    proc_lines = []
+    inside = False
+    for i, ln in enumerate(sc['text'].split('\n'), 1):
+        t = ln.strip().lower()
+        if t.startswith('sub ') or t.startswith('function '):
+            inside = True
+        elif t.startswith('end sub') or t.startswith('end function'):
+            inside = False
+        elif inside:
+            proc_lines.append(i)
+    histories = [gen_history(stream(H(s, 'operator', j), 'ops'), nlines, proc_lines)
+                 for j in range(5)]
     return {'property': PROP, 'run_seed': s, 'source': sc['source'], 'text': sc['text'],
             'ast': sc['ast'], 'script': sc['script'], 'meta': {},
             'config': {'opt': r.choice((0, 1, 2)), 'dbg': True,
@@ -51,9 +67,22 @@ def build(params):
             'operators': histories, 'operator': None, 'pick_seed': H(s, 'picks')}
 
 
-def gen_history(ro, nlines):
+def gen_history(ro, nlines, proc_lines=()):
     cmds = []
-    style = ro.choice(('mixed', 'mixed', 'steps', 'nexts', 'breaks'))
+    style = ro.choice(('mixed', 'mixed', 'steps', 'nexts', 'breaks', 'dive', 'procbp'))
+    if style == 'procbp':
+        # a breakpoint inside a procedure, then next / continue around calls to it
+        if proc_lines:
+            for _ in range(ro.randint(1, 2)):
+                cmds.append('break %d' % ro.choice(proc_lines))
+        cmds += [ro.choice(('next', 'next', 'nexti', 'continue', 'step')) for _ in range(ro.randint(2, 12))]
+        if ro.random() < 0.6:
+            cmds.append('delbr @any')
+        style = ro.choice(('nexts', 'mixed'))
+    if style == 'dive':
+        # step down into the call chain, then next/step around in there
+        cmds += ['step'] * ro.randint(2, 25)
+        style = 'nexts' if ro.random() < 0.7 else 'mixed'
     for _ in range(ro.randint(3, 30)):
         x = ro.random()
         if style == 'steps':
